@@ -1768,7 +1768,7 @@ func (h *ResponseHeader) setSpecialHeader(key, value []byte) bool {
 			h.SetContentEncodingBytes(value)
 			return true
 		} else if utils.CaseInsensitiveCompare(bytestr.StrConnection, key) {
-			if bytes.Equal(bytestr.StrClose, value) {
+			if utils.CaseInsensitiveCompare(bytestr.StrClose, value) {
 				h.SetConnectionClose(true)
 			} else {
 				h.ResetConnectionClose()
@@ -1828,7 +1828,7 @@ func (h *RequestHeader) setSpecialHeader(key, value []byte) bool {
 			}
 			return true
 		} else if utils.CaseInsensitiveCompare(bytestr.StrConnection, key) {
-			if bytes.Equal(bytestr.StrClose, value) {
+			if utils.CaseInsensitiveCompare(bytestr.StrClose, value) {
 				h.SetConnectionClose(true)
 			} else {
 				h.ResetConnectionClose()
